@@ -14,11 +14,11 @@ demo=$(git status --short | awk '{print $2}' | grep -E 'zz_.*_test\.go$' | head 
 cp MUTATION.md $OUT/ 2>/dev/null
 pkg=./$(dirname ${demo:-x}); [ "$pkg" = "./." ] && pkg=.
 # 1. demo fails with the change
-go test -count=1 -run 'ZZ|Zz|zz' $pkg >$OUT/demo_with.log 2>&1; with=$?
+go test -count=1 -run 'ZZ|Zz|zz|Demo' $pkg >$OUT/demo_with.log 2>&1; with=$?
 # 2. demo passes without
-git apply -R $OUT/patch.diff && { go test -count=1 -run 'ZZ|Zz|zz' $pkg >$OUT/demo_without.log 2>&1; without=$?; git apply $OUT/patch.diff; }
+git apply -R $OUT/patch.diff && { go test -count=1 -run 'ZZ|Zz|zz|Demo' $pkg >$OUT/demo_without.log 2>&1; without=$?; git apply $OUT/patch.diff; }
 # 3. existing suite passes with the change (demo skipped)
-go build ./... >$OUT/suite_with.log 2>&1 && go test -count=1 -skip 'ZZ|Zz' . ./internal/... ./datadictionary/... ./store/... >>$OUT/suite_with.log 2>&1; suite=$?
+go build ./... >$OUT/suite_with.log 2>&1 && go test -count=1 -skip 'ZZ|Zz|Demo' . ./internal/... ./datadictionary/... ./store/... >>$OUT/suite_with.log 2>&1; suite=$?
 echo "demo_with_change_exit=$with demo_without_change_exit=${without:-NA} suite_with_change_exit=$suite"
 # 4. run our checks against it
 cd /verif
